@@ -83,9 +83,19 @@ package schedule
 //@ func (*RegionScatterer).Put
 //@   assumed
 //@   modifies nothing
+// selectAvailableLeaderStores: the leader goes only to one of the target stores, and only to a store that the store-state
+// filter admits as a leader target (Up - not tombstone, not offline; the filter's other leader-target conditions, among
+// them the reject-leader label property, are behind the same call). 0 means "no such store".
+//@ pure leaderStoreOK(r *RegionScatterer, peers map[uint64]*metapb.Peer, id uint64) = in(peers, id) && ufptr("clusterStoreOf", core.StoreInfo, r.cluster, id) != nil && scStoreState(ufptr("clusterStoreOf", core.StoreInfo, r.cluster, id)) == 0
 //@ func (*RegionScatterer).selectAvailableLeaderStores
-//@   assumed
-//@   modifies nothing
+//@   props C11
+//@   requires r != nil && r.cluster != nil
+//@   ensures [leader-only-on-a-target-store-that-accepts-leaders] result != 0 ==> leaderStoreOK(r, peers, result)
+//@   at Target 1 assert [asks-as-a-leader-target] recv.TransferLeader
+//@   loop 1 invariant forall j :: {leaderCandidateStores[j]} 0 <= j && j < len(leaderCandidateStores) ==> leaderStoreOK(r, peers, leaderCandidateStores[j])
+//@   loop 2 invariant (id != 0 ==> leaderStoreOK(r, peers, id)) && (forall j :: {leaderCandidateStores[j]} 0 <= j && j < len(leaderCandidateStores) ==> leaderStoreOK(r, peers, leaderCandidateStores[j]))
+//@   option nosafety
+//@   modifies all filter.StoreStateFilter.Reason, ghost evres
 //@ pure peerMapOK(m map[uint64]*metapb.Peer) = m != nil && allocated(m) && (forall k uint64 :: {in(m, k)} in(m, k) ==> m[k] != nil)
 //@ func (*RegionScatterer).scatterRegion
 //@   props C11
